@@ -97,6 +97,10 @@ def main():
         name = os.path.basename(os.path.dirname(p)) if os.path.basename(p) == "patch.diff" else os.path.basename(p)[:-5]
         text = open(p).read()
         m = re.search(r"^# expect: (.*)$", text, re.M)
+        mh = re.search(r"^# expect-held: (.*)$", text, re.M)
+        benign = mh is not None
+        if benign:
+            m = mh
         checks = checks_override or (m.group(1).split() if m else [])
         meta = os.path.join(os.path.dirname(p), "meta.json")
         if not checks and os.path.exists(meta):
@@ -108,7 +112,7 @@ def main():
             print("%-44s APPLY-FAILED %s" % (name, r.stderr.strip()[:200]), flush=True)
             results.append({"mutant": name, "error": "apply failed"})
             continue
-        row = {"mutant": name, "tier": tier, "checks": {}}
+        row = {"mutant": name, "tier": tier, "checks": {}, "benign": benign}
         if suite:
             t0 = time.time()
             r = sh("cargo test --workspace --no-fail-fast --offline 2>&1 | grep -E '^test result|FAILED|^error' | sort | uniq -c | head -20", cwd=repo, env=env)
@@ -122,6 +126,8 @@ def main():
             r = subprocess.run([sys.executable, os.path.join(HERE, "check.py"), c, tier], env=env, capture_output=True, text=True, cwd=HERE)
             sigs = re.findall(r"signature: (\S+)", r.stdout)
             verdict = {0: "held(MISSED)", 1: "VIOLATION", 2: "inconclusive"}.get(r.returncode, "rc=%d" % r.returncode)
+            if benign:
+                verdict = {0: "held(ok)", 1: "FALSE-ALARM", 2: "inconclusive"}.get(r.returncode, "rc=%d" % r.returncode)
             row["checks"][c] = {"rc": r.returncode, "sigs": sorted(set(sigs))[:6], "wall_s": round(time.time() - t0, 1)}
             print("%-44s %s %-13s %5.1fs %s" % (name, c, verdict, time.time() - t0, ",".join(sorted(set(sigs))[:4])), flush=True)
             if r.returncode == 2:
@@ -132,7 +138,10 @@ def main():
     sh("git checkout -q -- . && git clean -qfd", cwd=repo)
     if not keep:
         shutil.rmtree(work, ignore_errors=True)
-    missed = [r["mutant"] for r in results if any(v["rc"] == 0 for v in r.get("checks", {}).values())]
+    missed = [r["mutant"] for r in results if any(v["rc"] == 0 for v in r.get("checks", {}).values()) and not r.get("benign")]
+    alarms = [r["mutant"] for r in results if r.get("benign") and any(v["rc"] == 1 for v in r.get("checks", {}).values())]
+    if alarms:
+        print("FALSE ALARMS on property-preserving changes: %s" % alarms)
     print("done: %d mutants, fully or partly missed: %s" % (len(results), missed))
 
 
